@@ -150,7 +150,11 @@ class Gen:
                 out.append(("SWrBlk", a, r.randrange(st), self.expr(cx, 2)))
             elif k == "atom":
                 a, size = r.choice(cx["katom"])
-                out.append(("SAtom", a, ("EModP", self.expr(cx, 1), size), self.expr(cx, 2)))
+                form = r.random()
+                if form < 0.75:
+                    out.append(("SAtom", a, ("EModP", self.expr(cx, 1), size), self.expr(cx, 2)))
+                else:
+                    out.append(("SAtomInc" if form < 0.9 else "SAtomDec", a, ("EModP", self.expr(cx, 1), size)))
             elif k == "if":
                 c = self.expr(cx, 2)
                 saved = set(cx["locals_set"])
@@ -292,13 +296,13 @@ def fix_sizes(K):
             return (t, s[1], fe(s[2]))
         if t in ("SWrOwn", "SWrBlk", "SWrSh"):
             return (t, s[1], s[2], fe(s[3]))
-        if t == "SAtom":
+        if t in ("SAtom", "SAtomInc", "SAtomDec"):
             i = s[2]
             if i[0] == "EModP" and i[2] is None:
                 i = ("EModP", fe(i[1]), K["garr"][s[1]])
             else:
                 i = fe(i)
-            return ("SAtom", s[1], i, fe(s[3]))
+            return ("SAtom", s[1], i, fe(s[3])) if t == "SAtom" else (t, s[1], i)
         if t == "SIf":
             return ("SIf", fe(s[1]), [fs(x) for x in s[2]], [fs(x) for x in s[3]])
         if t == "SFirst":
@@ -324,6 +328,8 @@ FIXED = [
     # helper function, @restrict, @max_inner_dims with run-time inner extent, @simd_length
     "kf4 args:5,3 garr:15,15 ob:a1:a0:i,t1:1x5:1:1:m8+s16+r sec:0:N X0=(g0[i0]#o0) S0.0=(x0-i0) "
     "sec:-:N O1.0=(s0[m((i0+1),5)]#x0)",
+    # @atomic ++x / --x
+    "kf5 args:3 garr:4,2 ob:a0:c4:i,a:-:0:1:- sec:-:N A1[0]++ I((i0<2)){A1[1]--}{A1[1]+=g0[i0]}",
 ]
 
 # the known finding: 1100 inner iterations with run-time bounds and an @exclusive variable
@@ -420,7 +426,7 @@ def atomic_text_check(cases, trexe, env, root):
 
         def walk(ss):
             for s in ss:
-                if s[0] == "SAtom":
+                if s[0] in ("SAtom", "SAtomInc", "SAtomDec"):
                     targets.add(s[1])
                 elif s[0] == "SIf":
                     walk(s[2]); walk(s[3])
@@ -449,7 +455,7 @@ def atomic_text_check(cases, trexe, env, root):
         lines = open(outk).read().splitlines()
         for i, l in enumerate(lines):
             for a in targets:
-                if re.search(r"^\s*g%d\[.*\]\s*\+=" % a, l):
+                if re.search(r"^\s*(g%d\[.*\]\s*\+=|(\+\+|--)g%d\[)" % (a, a), l):
                     prev = lines[i - 1] if i else ""
                     if not re.search(r"#pragma omp (atomic|critical)", prev):
                         bad.setdefault(m, []).append(name)
